@@ -98,7 +98,7 @@ def run(cx, out):
     out.rule('R15.2', 'append reads / sizes / writes the count with the Compact<u32> codec; decode failure and overflow -> Err')
     out.rule('R15.3', 'in-place rewrite iff equal prefix lengths, exactly vec[..old]; otherwise new prefix + vec[old..]; empty -> prefix alone')
     out.rule('R15.4', 'items encoded in iteration order into the same buffer; both EncodeAppend impls call the routine unchanged')
-    for cfg in lib_cfgs(cx, quick=('A',), thorough=('A', 'B', 'D')):
+    for cfg in lib_cfgs(cx, quick=('D',), thorough=('A', 'B', 'D')):
         facts = cx.facts(cfg)
         unit(out, facts)
         S = shape.Shapes(facts)
